@@ -3,7 +3,8 @@
 
   The value model (`Val`) cannot say "the same object": here every container (dict / list)
   carries an identity, scalars carry none.  The world is what is stored, what the caller holds
-  (every argument ever passed, every result ever returned) and a fresh-identity counter.
+  (every argument ever passed, every result ever returned), what the caller's cursors have
+  cached (the result list a `Cursor` computes once and keeps) and a fresh-identity counter.
 
   The code is modelled by its COPY DISCIPLINE: the table `copyDiscipline` says, for every
   value-carrying position of the API (where a value travels from an argument into the store,
@@ -142,6 +143,7 @@ def chainDeep (c : List Prim) : Bool := c.any Prim.deep
 /-! ### Value-carrying positions and the table -/
 
 /-- Where a value travels in one API call.  `arg → store`, `store → caller`, `store → store`,
+    `store → cache` (a `Cursor` computes its results), `cache → caller` (it hands them out),
     `caller → caller`. -/
 inductive Pos where
   -- argument → store
@@ -163,13 +165,17 @@ inductive Pos where
   | upsertInsert   -- the assembled upsert document on its way into the store
   -- store → store
   | rollbackSnapshot -- the before-image a failed single-document update puts back
-  -- store → caller
-  | findDoc        -- a document returned without projection
+  -- store → cache: what `Collection._get_dataset` yields, kept by the `Cursor` (`_results`)
+  | findDoc        -- a document read without projection
   | projField      -- a field copied by a projection (`_project_by_spec`)
   | projId         -- the `_id` re-attached by a projection
   | projOpStored   -- `$slice` / `$elemMatch` on a field the projection had not copied
   | projOpCopied   -- `$slice` / `$elemMatch` on a field already copied
-  | distinctVal    -- a value returned by `distinct`
+  -- cache → caller
+  | cursorOut      -- a cached document handed out by `next(cursor)` / `cursor[i]` (the first time,
+                   -- again after `rewind()`; `find_one` and `find_one_and_*` are `next(find(…))`)
+  | distinctVal    -- an embedded document returned by `distinct`
+  -- store → caller
   | aggDoc         -- a document entering a pipeline (`$match`, `$sort`, `$skip`, `$limit`, `$group`, `$project`)
   | aggAddFields   -- a document leaving `$addFields` / `$set`
   | aggUnwind      -- a document leaving `$unwind`
@@ -177,14 +183,13 @@ inductive Pos where
   | upsertedId     -- `UpdateResult.upserted_id`
   -- caller → caller
   | aggLiteral     -- a constant of the pipeline appearing in the output
-  | cursorCache    -- a document read again from the same `Cursor` (rewind / indexing)
   deriving DecidableEq, Repr, Inhabited
 
 def Pos.all : List Pos :=
   [.insertArg, .insertDoc, .updTemp, .setValDoc, .setValList, .setOnInsertVal, .minMaxVal, .pushVal, .pushEach,
    .addToSetVal, .addToSetEach, .positionalSet, .replaceVal, .upsertSeed, .upsertId, .upsertInsert,
-   .rollbackSnapshot, .findDoc, .projField, .projId, .projOpStored, .projOpCopied, .distinctVal,
-   .aggDoc, .aggAddFields, .aggUnwind, .insertedId, .upsertedId, .aggLiteral, .cursorCache]
+   .rollbackSnapshot, .findDoc, .projField, .projId, .projOpStored, .projOpCopied, .cursorOut,
+   .distinctVal, .aggDoc, .aggAddFields, .aggUnwind, .insertedId, .upsertedId, .aggLiteral]
 
 def Pos.name : Pos → String
   | .insertArg => "insertArg" | .insertDoc => "insertDoc" | .updTemp => "updTemp" | .setValDoc => "setValDoc"
@@ -194,14 +199,14 @@ def Pos.name : Pos → String
   | .replaceVal => "replaceVal" | .upsertSeed => "upsertSeed" | .upsertId => "upsertId"
   | .upsertInsert => "upsertInsert" | .rollbackSnapshot => "rollbackSnapshot"
   | .findDoc => "findDoc" | .projField => "projField" | .projId => "projId"
-  | .projOpStored => "projOpStored" | .projOpCopied => "projOpCopied"
+  | .projOpStored => "projOpStored" | .projOpCopied => "projOpCopied" | .cursorOut => "cursorOut"
   | .distinctVal => "distinctVal" | .aggDoc => "aggDoc" | .aggAddFields => "aggAddFields"
   | .aggUnwind => "aggUnwind" | .insertedId => "insertedId" | .upsertedId => "upsertedId"
-  | .aggLiteral => "aggLiteral" | .cursorCache => "cursorCache"
+  | .aggLiteral => "aggLiteral"
 
 /-- where the value at a position comes from and where it goes -/
 inductive Flow where
-  | argToStore | storeToStore | storeToCaller | callerToCaller
+  | argToStore | storeToStore | storeToCache | cacheToCaller | storeToCaller | callerToCaller
   deriving DecidableEq, Repr
 
 def Pos.flow : Pos → Flow
@@ -209,9 +214,10 @@ def Pos.flow : Pos → Flow
   | .pushVal | .pushEach | .addToSetVal | .addToSetEach | .positionalSet | .replaceVal | .upsertSeed
   | .upsertId | .upsertInsert => .argToStore
   | .rollbackSnapshot => .storeToStore
-  | .findDoc | .projField | .projId | .projOpStored | .projOpCopied | .distinctVal | .aggDoc
-  | .aggAddFields | .aggUnwind | .insertedId | .upsertedId => .storeToCaller
-  | .aggLiteral | .cursorCache => .callerToCaller
+  | .findDoc | .projField | .projId | .projOpStored | .projOpCopied => .storeToCache
+  | .cursorOut | .distinctVal => .cacheToCaller
+  | .aggDoc | .aggAddFields | .aggUnwind | .insertedId | .upsertedId => .storeToCaller
+  | .aggLiteral => .callerToCaller
 
 /-- A copy discipline: the primitives applied at each position. -/
 structure Table where
@@ -235,15 +241,24 @@ structure Table where
       `doc_copy['_id'] = _copy_field(doc['_id'], container)`; 1114
       `doc_copy[field] = _copy_field(doc[field], dict)`, then 1147 a slice / 1160 `[item]`: a new
       list of the elements of that copy.
-    * `distinct` 1988-2005 works on `find()` copies, `dict(v)` of the hashdicts.
-    * `aggregate` 1826 `[doc for doc in self.find()]`; aggregate.py 1556 `dict(doc)`, 1404/1414
-      `copy.deepcopy(doc)`; constants of the pipeline are evaluated to themselves (NO copy,
-      caller → caller).
+    * EVERY read goes through a `Cursor`: `Cursor._compute_results` 2052-2070 computes
+      `list(self._factory())` once and keeps it (`self._results`): the copies listed above land in
+      the cursor's CACHE, not with the caller.  `__next__` 2087 and `__getitem__(int)` 2186 hand
+      out `_copy_field(cached, dict)` (`cursorOut`; since the fix "a cursor hands out a copy of its
+      cached result each time" b973460 — before it the cached objects themselves went out, and a
+      rewind / an index showed the caller's edits).  `find_one` 1408 is `next(self.find(…))`,
+      `find_one_and_*` read through `find_one`.
+    * `distinct` 1884 `self.find(filter).distinct(key)`; `Cursor.distinct` 2142-2153 walks the
+      cache, wraps an embedded document in `hashdict(value)` (a new dict around the same children)
+      and returns `_copy_field(v, dict)` (b973460; it was `dict(v)`, sharing nested lists with the
+      cache).
+    * `aggregate` 1964 rebuilds the pipeline (`patch_datetime_awareness_in_document`, d1da933: the
+      caller's pipeline object is never the one the stages see), 1967 `[doc for doc in
+      self.find()]` (cache, then the hand-out copy; the cursor is dropped); aggregate.py 1755
+      `dict(doc)`, 1581/1591 `copy.deepcopy(doc)` (and the unwound item is taken out of that copy,
+      0383ef2); 539 `$literal` / array constants: `copy.deepcopy(value)`.
     * 548 `return _copy_field(data['_id'], dict)` — `inserted_id`, `inserted_ids` and (934, 961)
-      `upserted_id` are copies of the stored `_id`.
-    * `Cursor._compute_results` 1909-1925 caches the result list and `__next__`/`__getitem__`
-      hand out its elements: reading the cursor again returns the same objects (NO copy, caller →
-      caller). -/
+      `upserted_id` are copies of the stored `_id`. -/
 def copyDiscipline : Table where
   disc
     | .insertArg => [.noCopy]
@@ -268,14 +283,14 @@ def copyDiscipline : Table where
     | .projId => [.copyField]
     | .projOpStored => [.copyField]
     | .projOpCopied => [.copyField]
-    | .distinctVal => [.copyField, .shallow]
-    | .aggDoc => [.copyField]
-    | .aggAddFields => [.copyField, .shallow]
-    | .aggUnwind => [.copyField, .deepcopy]
+    | .cursorOut => [.copyField]   -- was noCopy: cursor-cache-alias, fixed (b973460)
+    | .distinctVal => [.shallow, .copyField]
+    | .aggDoc => [.copyField, .copyField]
+    | .aggAddFields => [.copyField, .copyField, .shallow]
+    | .aggUnwind => [.copyField, .copyField, .deepcopy]
     | .insertedId => [.copyField]
     | .upsertedId => [.copyField]
-    | .aggLiteral => [.deepcopy]   -- aggregate.py `$literal` / array constants: copy.deepcopy (was noCopy: agg-literal-alias, fixed)
-    | .cursorCache => [.noCopy]
+    | .aggLiteral => [.rebuild, .deepcopy]   -- was noCopy: agg-literal-alias, fixed (aab0261); rebuild: d1da933
 
 /-- the positions at which a table does not copy -/
 def Table.aliasing (T : Table) : List Pos := Pos.all.filter (fun p => !chainDeep (T.disc p))
@@ -283,26 +298,31 @@ def Table.aliasing (T : Table) : List Pos := Pos.all.filter (fun p => !chainDeep
 /-! ### The world -/
 
 /-- What is stored (one tree per document), what the caller holds (every argument ever passed and
-    every result ever returned) and the next unused identity. -/
+    every result ever returned), what the caller's cursors keep (`Cursor._results`: one tree per
+    cached result, all cursors one after the other; the caller holds the cursors, not these
+    objects) and the next unused identity. -/
 structure World where
   store : List HVal
   held : List HVal
+  cache : List HVal := []
   next : Nat
   deriving Inhabited
 
-def World.empty : World := ⟨[], [], 0⟩
+def World.empty : World := ⟨[], [], [], 0⟩
 
 /-- where a travelling value is taken from -/
 inductive Src where
   | store (i : Nat) (p : List Nat)   -- sub-value at path `p` of the `i`-th stored document
   | held (i : Nat) (p : List Nat)    -- … of the `i`-th object the caller holds
   | temp (i : Nat) (p : List Nat)    -- … of the `i`-th temporary of the running call
+  | cache (i : Nat) (p : List Nat)   -- … of the `i`-th result a cursor has cached
   deriving Repr, Inhabited
 
 structure Env where
   store : List HVal
   held : List HVal
   temps : List HVal
+  cache : List HVal
 
 def getAt (l : List HVal) (i : Nat) (p : List Nat) : HVal :=
   match l[i]? with
@@ -313,9 +333,11 @@ def Src.get (e : Env) : Src → HVal
   | .store i p => getAt e.store i p
   | .held i p => getAt e.held i p
   | .temp i p => getAt e.temps i p
+  | .cache i p => getAt e.cache i p
 
-def Src.fromStore : Src → Bool
-  | .store .. => true
+/-- the value is taken out of what the library keeps (the store, a cursor's cache) -/
+def Src.fromLib : Src → Bool
+  | .store .. | .cache .. => true
   | _ => false
 
 /-- How a value that enters the store / goes to the caller is assembled: constants, values that
@@ -431,9 +453,11 @@ def mutateL (id : Nat) (f : HVal → HVal) : List HVal → List HVal
   | v :: r => mutate id f v :: mutateL id f r
 
 /-- `mutate id f` on the whole world: the node with that identity is rewritten wherever it
-    occurs — in the caller's objects and, if it is shared, in the stored documents. -/
+    occurs — in the caller's objects and, if it is shared, in the stored documents and in what
+    the cursors have cached. -/
 def World.mutate (id : Nat) (f : HVal → HVal) (w : World) : World :=
-  { w with store := mutateL id f w.store, held := mutateL id f w.held }
+  { w with store := mutateL id f w.store, held := mutateL id f w.held,
+           cache := mutateL id f w.cache }
 
 /-- what a caller (or a callee writing into an argument) does to a container it holds: drop or
     re-key children, add scalar children -/
@@ -457,6 +481,9 @@ inductive Step where
   /-- a write: temporaries, in-place edits of stored documents, new documents, deletions -/
   | write (temps : List (Pos × Nat × List Nat)) (edits : List (Nat × NodeEdit))
       (newDocs : List (Tpl × Pos)) (deletes : List Nat)
+  /-- a cursor computes its results (`Cursor._compute_results`): they are assembled and KEPT by
+      the cursor -/
+  | fill (results : List Tpl)
   /-- a read: results are assembled and handed to the caller -/
   | read (results : List Tpl)
 
@@ -466,14 +493,18 @@ def step (T : Table) (w : World) : Step → World
   | .scribble id keep add => w.mutate id (scribbleFn keep add)
   | .write temps edits newDocs deletes =>
     let tv := evalTemps T w.held temps w.next
-    let e : Env := ⟨w.store, w.held, tv.1⟩
+    let e : Env := ⟨w.store, w.held, tv.1, w.cache⟩
     let ed := applyEdits T e edits w.store tv.2
     let nd := evalNewDocs T e newDocs ed.2
-    { store := dropIdxFrom deletes 0 ed.1 ++ nd.1, held := w.held, next := nd.2 }
-  | .read results =>
-    let e : Env := ⟨w.store, w.held, []⟩
+    { store := dropIdxFrom deletes 0 ed.1 ++ nd.1, held := w.held, cache := w.cache, next := nd.2 }
+  | .fill results =>
+    let e : Env := ⟨w.store, w.held, [], w.cache⟩
     let r := evalTpls T e results w.next
-    { store := w.store, held := w.held ++ r.1, next := r.2 }
+    { store := w.store, held := w.held, cache := w.cache ++ r.1, next := r.2 }
+  | .read results =>
+    let e : Env := ⟨w.store, w.held, [], w.cache⟩
+    let r := evalTpls T e results w.next
+    { store := w.store, held := w.held ++ r.1, cache := w.cache, next := r.2 }
 
 def run (T : Table) (w : World) : List Step → World
   | [] => w
@@ -482,13 +513,16 @@ def run (T : Table) (w : World) : List Step → World
 /-! ### The invariant -/
 
 /-- **Separation**: no object occurs twice in the store (neither in two documents nor twice in
-    one), and nothing stored is held by the caller. -/
+    one), nothing stored is held by the caller, and nothing a cursor has cached is held by the
+    caller or stored. -/
 def Sep (w : World) : Prop :=
-  (idsL w.store).Nodup ∧ ∀ a, a ∈ idsL w.store → a ∉ idsL w.held
+  (idsL w.store).Nodup ∧ (∀ a, a ∈ idsL w.store → a ∉ idsL w.held) ∧
+  (∀ a, a ∈ idsL w.cache → a ∉ idsL w.held ∧ a ∉ idsL w.store)
 
 /-- every identity in use is below the counter (so "fresh" means fresh) -/
 def Bounded (w : World) : Prop :=
-  (∀ a, a ∈ idsL w.store → a < w.next) ∧ (∀ a, a ∈ idsL w.held → a < w.next)
+  (∀ a, a ∈ idsL w.store → a < w.next) ∧ (∀ a, a ∈ idsL w.held → a < w.next) ∧
+  (∀ a, a ∈ idsL w.cache → a < w.next)
 
 instance (w : World) : Decidable (Sep w) := by unfold Sep; exact inferInstance
 instance (w : World) : Decidable (Bounded w) := by unfold Bounded; exact inferInstance
@@ -507,10 +541,10 @@ mutual
 end
 
 mutual
-  /-- for a RESULT it is enough that nothing comes uncopied out of the STORE -/
+  /-- for a RESULT it is enough that nothing comes uncopied out of the STORE or a cursor's CACHE -/
   def Tpl.detached (T : Table) (e : Env) : Tpl → Bool
     | .atom _ => true
-    | .piece pos src => chainDeep (T.disc pos) || (src.get e).isAtom || !src.fromStore
+    | .piece pos src => chainDeep (T.disc pos) || (src.get e).isAtom || !src.fromLib
     | .node _ kids => Tpl.detachedKids T e kids
   def Tpl.detachedKids (T : Table) (e : Env) : List (String × Tpl) → Bool
     | [] => true
@@ -530,18 +564,22 @@ mutual
 end
 
 /-- The steps covered by the separation theorem under table `T`, in world `w`: every value that
-    enters the store has been deep-copied on the way (or is a scalar), every value that leaves the
-    store likewise; arguments are objects of the caller (held already, or new). -/
+    enters the store or a cursor's cache has been deep-copied on the way (or is a scalar), every
+    value that leaves the store or a cache likewise; arguments are objects of the caller (held
+    already, or new). -/
 def Step.safe (T : Table) (w : World) : Step → Bool
   | .pass args => (idsL args).all (fun a => (idsL w.held).contains a || decide (w.next ≤ a))
   | .calleeWrite .. => true
   | .scribble .. => true
   | .write temps edits newDocs _ =>
-    let e : Env := ⟨w.store, w.held, (evalTemps T w.held temps w.next).1⟩
+    let e : Env := ⟨w.store, w.held, (evalTemps T w.held temps w.next).1, w.cache⟩
     edits.all (fun ie => Tpl.copiedKids T e ie.2.add) &&
     newDocs.all (fun tp => chainDeep (T.disc tp.2) || Tpl.copied T e tp.1)
+  | .fill results =>
+    let e : Env := ⟨w.store, w.held, [], w.cache⟩
+    results.all (fun t => Tpl.copied T e t && Tpl.noTemp t)
   | .read results =>
-    let e : Env := ⟨w.store, w.held, []⟩
+    let e : Env := ⟨w.store, w.held, [], w.cache⟩
     results.all (fun t => Tpl.detached T e t && Tpl.noTemp t)
 
 /-- every step of a history is covered, each in the world it runs in -/
@@ -564,14 +602,18 @@ inductive Op where
   | findOneAndProjected                     -- find_one_and_* with a projection
   | findOneAndUpsert                        -- find_one_and_update/replace that created a document
   | distinct | aggregate
-  | cursorReread                            -- rewind / index the same Cursor again
+  -- what a `Cursor` the caller keeps hands out (the first use computes and caches the results)
+  | cursorNext                              -- `next(cursor)` / iterating it: the first time, again
+                                            -- after `rewind()`, on a `clone()`
+  | cursorIndex                             -- `cursor[i]`
+  | cursorDistinct                          -- `cursor.distinct(key)`
   deriving DecidableEq, Repr, Inhabited
 
 def Op.all : List Op :=
   [.insertOne, .insertMany, .updateOne, .updateMany, .replaceOne, .updateUpsert, .replaceUpsert,
    .deleteOne, .deleteMany, .countDocuments, .find, .findOne, .findProjected, .findOneAndUpdate,
    .findOneAndReplace, .findOneAndDelete, .findOneAndProjected, .findOneAndUpsert, .distinct,
-   .aggregate, .cursorReread]
+   .aggregate, .cursorNext, .cursorIndex, .cursorDistinct]
 
 def Op.name : Op → String
   | .insertOne => "insert_one" | .insertMany => "insert_many" | .updateOne => "update_one"
@@ -581,7 +623,8 @@ def Op.name : Op → String
   | .findProjected => "find_projected" | .findOneAndUpdate => "find_one_and_update"
   | .findOneAndReplace => "find_one_and_replace" | .findOneAndDelete => "find_one_and_delete"
   | .findOneAndProjected => "find_one_and_projected" | .findOneAndUpsert => "find_one_and_upsert"
-  | .distinct => "distinct" | .aggregate => "aggregate" | .cursorReread => "cursor_reread"
+  | .distinct => "distinct" | .aggregate => "aggregate" | .cursorNext => "cursor_next"
+  | .cursorIndex => "cursor_index" | .cursorDistinct => "cursor_distinct"
 
 def updateRows : List Pos :=
   [.updTemp, .setValDoc, .setValList, .minMaxVal, .pushVal, .pushEach, .addToSetVal, .addToSetEach,
@@ -589,6 +632,9 @@ def updateRows : List Pos :=
 def replaceRows : List Pos := [.updTemp, .replaceVal, .rollbackSnapshot]
 def upsertRows : List Pos := [.setOnInsertVal, .upsertSeed, .upsertId, .upsertInsert, .upsertedId]
 def projRows : List Pos := [.findDoc, .projField, .projId, .projOpStored, .projOpCopied]
+/-- a read hands out what the cursor it made has cached -/
+def readRows : List Pos := [.findDoc, .cursorOut]
+def projReadRows : List Pos := projRows ++ [.cursorOut]
 
 /-- the positions an operation can use -/
 def Op.rows : Op → List Pos
@@ -598,16 +644,17 @@ def Op.rows : Op → List Pos
   | .updateUpsert => updateRows ++ upsertRows
   | .replaceUpsert => replaceRows ++ upsertRows
   | .deleteOne | .deleteMany | .countDocuments => [.updTemp]
-  | .find | .findOne => [.findDoc]
-  | .findProjected => projRows
-  | .findOneAndUpdate => .findDoc :: updateRows
-  | .findOneAndReplace => .findDoc :: replaceRows
-  | .findOneAndDelete => [.findDoc, .updTemp]
-  | .findOneAndProjected => projRows ++ updateRows ++ replaceRows
-  | .findOneAndUpsert => .findDoc :: (updateRows ++ replaceRows ++ upsertRows)
-  | .distinct => [.distinctVal]
+  | .find | .findOne => readRows
+  | .findProjected => projReadRows
+  | .findOneAndUpdate => readRows ++ updateRows
+  | .findOneAndReplace => readRows ++ replaceRows
+  | .findOneAndDelete => readRows ++ [.updTemp]
+  | .findOneAndProjected => projReadRows ++ updateRows ++ replaceRows
+  | .findOneAndUpsert => readRows ++ (updateRows ++ replaceRows ++ upsertRows)
+  | .distinct => [.findDoc, .distinctVal]
   | .aggregate => [.aggDoc, .aggAddFields, .aggUnwind, .aggLiteral]
-  | .cursorReread => [.cursorCache]
+  | .cursorNext | .cursorIndex => projReadRows
+  | .cursorDistinct => projRows ++ [.distinctVal]
 
 /-- positions whose value lands directly in the store / with the caller (the others feed an
     assembly that goes through a further position: the temporaries of an update, the seed of an
@@ -616,10 +663,10 @@ def Pos.final : Pos → Bool
   | .insertArg | .updTemp | .upsertSeed | .upsertId => false
   | _ => true
 
-/-- **An operation copies at every position**: every final position of its row that touches the
-    store carries a deep copy. -/
+/-- **An operation copies at every position**: every final position of its row carries a deep
+    copy. -/
 def Op.copying (T : Table) (op : Op) : Bool :=
-  op.rows.all (fun p => !p.final || p.flow == .callerToCaller || chainDeep (T.disc p))
+  op.rows.all (fun p => !p.final || chainDeep (T.disc p))
 
 /-- what a call does to the objects it is given (collection.py 530-531; 1184 `fields =
     dict(fields)`: the projection dictionary is worked on in a copy) -/
@@ -639,7 +686,8 @@ def argEffect : Op → ArgRole → ArgFx
 /-! ### steps that stay within given rows -/
 
 def Src.okFor : Src → Flow → Bool
-  | .store .., .storeToCaller | .store .., .storeToStore => true
+  | .store .., .storeToCaller | .store .., .storeToStore | .store .., .storeToCache => true
+  | .cache .., .cacheToCaller => true
   | .held .., .callerToCaller | .held .., .argToStore => true
   | .temp .., .argToStore => true
   | _, _ => false
@@ -660,8 +708,8 @@ end
     they are assembled from is covered by it) -/
 def Step.within (ps : List Pos) : Step → Bool
   | .write _ edits newDocs _ =>
-    edits.all (fun ie => Tpl.withinKids (ps.filter (fun p => p.flow != .callerToCaller)) ie.2.add) &&
-    newDocs.all (fun tp => ps.contains tp.2 && tp.2.flow != .callerToCaller)
+    edits.all (fun ie => Tpl.withinKids ps ie.2.add) && newDocs.all (fun tp => ps.contains tp.2)
+  | .fill results => results.all (fun t => Tpl.within ps t && Tpl.noTemp t)
   | .read results => results.all (fun t => Tpl.within ps t && Tpl.noTemp t)
   | _ => true
 
@@ -674,9 +722,10 @@ def Step.callerOwns (w : World) : Step → Bool
 def finalPositions : List Pos := Pos.all.filter Pos.final
 
 /-- A step is WELL-FORMED when it only names final positions, takes each travelling value from
-    where its position says (store → caller positions from the store, caller → caller positions
-    from held objects, …), new documents end in a position that leads into the store, and results
-    name no temporary.  No condition on the table. -/
+    where its position says (store → caller and store → cache positions from the store, cache →
+    caller positions from a cursor's cache, caller → caller positions from held objects, …), and
+    results name no temporary.  No condition on the table, and none on which position is used
+    where. -/
 def Step.wellFormed (s : Step) : Bool := s.within finalPositions
 
 /-- every step of a history is well-formed and passes only objects of the caller -/
